@@ -1,5 +1,5 @@
 // C10 harness: seeded histories over partially reduced products.
-//   c10_product --seed S --first A --last B --len L [--batch K]          (compile with -DPAIRSET=0|1|2)
+//   c10_product --seed S --first A --last B --len L [--batch K]          (compile with -DPAIRSET=0|1|2|3)
 // For every pair (D1, D2) of the pair set and every reduction policy (Direct, Smash, Constraints,
 // Congruences, Shape_Preserving) a history keeps a pool of products and, next to every product,
 // *shadow* copies of its two components on which the same component-wise operators are applied
@@ -63,13 +63,27 @@ template <> const char* dname<Rational_Box>() { return "B"; }
 template <> const char* dname<BD_Shape<mpq_class> >() { return "D"; }
 template <> const char* dname<Octagonal_Shape<mpq_class> >() { return "O"; }
 
+template <typename D> struct IsGrid { static const bool v = false; };
+template <> struct IsGrid<Grid> { static const bool v = true; };
+template <typename D> struct IsBox { static const bool v = false; };
+template <> struct IsBox<Rational_Box> { static const bool v = true; };
+template <typename D> struct IsNNC { static const bool v = false; };
+template <> struct IsNNC<NNC_Polyhedron> { static const bool v = true; };
+template <typename D> struct IsPoly { static const bool v = false; };
+template <> struct IsPoly<NNC_Polyhedron> { static const bool v = true; };
+template <> struct IsPoly<C_Polyhedron> { static const bool v = true; };
+
 template <typename D1, typename D2, typename PR>
 struct PHist {
   Rng r;
   struct Slot { std::unique_ptr<PR> p; std::unique_ptr<D1> s1; std::unique_ptr<D2> s2; bool raw_known; };
   Slot slot[3];
   dimension_type maxdim;
-  bool nnc;
+  static const bool has_grid = IsGrid<D1>::v || IsGrid<D2>::v;
+  static const bool has_box = IsBox<D1>::v || IsBox<D2>::v;
+  static const bool nnc = IsNNC<D1>::v || IsNNC<D2>::v;
+  // strict relation symbols are accepted only if no component is a closed polyhedron
+  static const bool strict_ok = !(IsPoly<D1>::v && !IsNNC<D1>::v) && !(IsPoly<D2>::v && !IsNNC<D2>::v) && nnc;
   PHist(uint64_t seed) : r(seed) {}
   bool live(int s) const { return (bool)slot[s].p; }
   dimension_type dim(int s) { return slot[s].p->space_dimension(); }
@@ -80,188 +94,333 @@ struct PHist {
   void put_pair(OS& o, const D1& a, const D2& b, dimension_type n) {
     CK<D1>::put(o, a, n, pm); CK<D2>::put(o, b, n, pm);
   }
+  void put_raw(int s) {
+    Slot& S = slot[s]; dimension_type n = S.p->space_dimension();
+    OS o; o << "praw " << s << " " << n; put_pair(o, *S.s1, *S.s2, n); J.line(o.str());
+  }
   // print the claimed raw components, then force the reduction and print the observed ones
   void observe(int s) {
     Slot& S = slot[s]; dimension_type n = S.p->space_dimension();
     pm = r.chance(1, 2);
-    if (S.raw_known) { OS o; o << "praw " << s << " " << n; put_pair(o, *S.s1, *S.s2, n); J.line(o.str()); }
-    bool expl = r.chance(1, 2);
-    if (expl) { bool did = S.p->reduce(); OS o; o << "pexp " << s << " " << did; J.line(o.str()); }
+    if (S.raw_known) put_raw(s);
+    if (r.chance(1, 2)) { bool did = S.p->reduce(); OS o; o << "pexp " << s << " " << did; J.line(o.str()); }
     const D1& o1 = S.p->domain1(); const D2& o2 = S.p->domain2();
     { OS o; o << "pobs " << s << " " << n; put_pair(o, o1, o2, n); J.line(o.str()); }
     *S.s1 = o1; *S.s2 = o2; S.raw_known = true;
     if (!S.p->OK()) { OS o; o << "notok " << s; J.line(o.str()); }
   }
 
-  Constraint rnd_c(dimension_type n) {
-    unsigned k = r.below(10);
+  // ---- random data: small rational bounds, congruences with non-unit coefficients and moduli ----------
+  Linear_Expression unit_or_pair(dimension_type n) {
     Linear_Expression e; e += 0 * Variable(n - 1);
-    if (k < 5) { e += (r.chance(1, 2) ? 1 : -1) * Variable(r.below(n)); e *= r.range(1, 3); e += r.range(-7, 7); }
-    else if (k < 8 && n >= 2) { dimension_type i = r.below(n), j = (i + 1 + r.below(n - 1)) % n;
-      e += Variable(i); if (r.chance(1, 2)) e -= Variable(j); else e += Variable(j); if (r.chance(1, 2)) e = -e; e += r.range(-5, 5); }
-    else { e = rnd_expr(r, n, 2, false); if (all_zero(e, n)) e += Variable(0); }
+    unsigned k = r.below(10);
+    if (k < 6 || n < 2) e += (r.chance(1, 2) ? 1 : -1) * Variable(r.below(n));
+    else if (k < 9) { dimension_type i = r.below(n), j = (i + 1 + r.below(n - 1)) % n;
+      e += Variable(i); if (r.chance(1, 2)) e -= Variable(j); else e += Variable(j); if (r.chance(1, 2)) e = -e; }
+    else { e = rnd_expr(r, n, 2, false); e -= e.inhomogeneous_term(); if (all_zero(e, n)) e += Variable(0); }
+    return e;
+  }
+  Constraint rnd_c(dimension_type n, bool allow_strict) {
+    Linear_Expression e = unit_or_pair(n);
+    e *= (long[]){1, 1, 1, 2, 3}[r.below(5)];
+    e += r.range(-7, 7);
     unsigned t = r.below(12);
     if (t == 0) return e == 0;
-    if (nnc && t < 3) return e > 0;
+    if (allow_strict && t < 4) return e > 0;
     return e >= 0;
+  }
+  // interval constraint (acceptable to add_constraint of boxes, BD shapes, octagons, polyhedra)
+  Constraint interval_c(dimension_type n) {
+    Linear_Expression e; e += 0 * Variable(n - 1);
+    e += (r.chance(1, 2) ? 1 : -1) * Variable(r.below(n)); e *= r.range(1, 3); e += r.range(-7, 7);
+    return e >= 0;
+  }
+  Constraint equality_c(dimension_type n) {
+    Linear_Expression e; e += 0 * Variable(n - 1);
+    e += Variable(r.below(n)); e *= r.range(1, 3); e += r.range(-5, 5);
+    return e == 0;
   }
   Congruence rnd_cg(dimension_type n) {
     Linear_Expression e; e += 0 * Variable(n - 1);
     unsigned k = r.below(10);
-    if (k < 6) e += Variable(r.below(n));
-    else if (n >= 2 && k < 9) { dimension_type i = r.below(n), j = (i + 1 + r.below(n - 1)) % n; e += Variable(i); e += r.range(-2, 2) * Variable(j); }
-    else { e = rnd_expr(r, n, 2, false); if (all_zero(e, n)) e += Variable(0); }
-    long m = (long[]){0, 2, 2, 3, 3, 4, 5, 1}[r.below(8)];
+    long a = (long[]){1, 1, 2, 3, 3, 4}[r.below(6)];
+    if (k < 6 || n < 2) e += a * Variable(r.below(n));
+    else if (k < 9) { dimension_type i = r.below(n), j = (i + 1 + r.below(n - 1)) % n; e += a * Variable(i); e += r.range(-2, 2) * Variable(j); }
+    else { e = rnd_expr(r, n, 2, false); e -= e.inhomogeneous_term(); if (all_zero(e, n)) e += Variable(0); }
+    long m = (long[]){0, 2, 2, 3, 3, 4, 5, 1, 6}[r.below(9)];
     long b = r.range(-4, 4);
     return (e %= b) / m;
+  }
+  void put_cg(OS& o, const Congruence& cg, dimension_type n) {
+    o << " " << cg.modulus() << " " << cg.inhomogeneous_term();
+    for (dimension_type v = 0; v < n; ++v) o << " " << cg.coefficient(Variable(v));
+  }
+  Relation_Symbol rnd_rel(bool allow_strict) {
+    return (Relation_Symbol[]){LESS_OR_EQUAL, EQUAL, GREATER_OR_EQUAL, LESS_THAN, GREATER_THAN}[r.below(allow_strict ? 5 : 3)];
   }
 
   void create(int s, dimension_type n) {
     Slot& S = slot[s];
-    OS o; o << "pnew " << s << " " << n; J.line(o.str());
-    S.p.reset(new PR(n, UNIVERSE)); S.s1.reset(new D1(n, UNIVERSE)); S.s2.reset(new D2(n, UNIVERSE)); S.raw_known = true;
+    if (r.chance(1, 4)) {
+      // from a grid given by generators with non-unit divisors
+      Grid g(n, EMPTY);
+      Linear_Expression pe; pe += 0 * Variable(n - 1);
+      for (dimension_type i = 0; i < n; ++i) pe += r.range(-3, 3) * Variable(i);
+      g.add_grid_generator(grid_point(pe, r.range(1, 3)));
+      unsigned k = r.below((unsigned)n + 1);
+      for (unsigned j = 0; j < k; ++j) {
+        Linear_Expression qe; qe += 0 * Variable(n - 1);
+        for (dimension_type i = 0; i < n; ++i) if (r.chance(1, 2)) qe += r.range(-3, 3) * Variable(i);
+        if (all_zero(qe, n)) qe += Variable(r.below(n));
+        if (r.chance(1, 6)) g.add_grid_generator(grid_line(qe)); else g.add_grid_generator(parameter(qe, r.range(1, 3)));
+      }
+      OS o; o << "pgrid " << s << " " << n; put_ggs(o, g.grid_generators(), n); J.line(o.str());
+      S.p.reset(new PR(g)); S.s1.reset(new D1(g)); S.s2.reset(new D2(g)); S.raw_known = true;
+    } else {
+      OS o; o << "pnew " << s << " " << n; J.line(o.str());
+      S.p.reset(new PR(n, UNIVERSE)); S.s1.reset(new D1(n, UNIVERSE)); S.s2.reset(new D2(n, UNIVERSE)); S.raw_known = true;
+    }
+    if (r.chance(2, 3)) {   // a bounding box with rational bounds: the intersection can be enumerated exhaustively
+      for (dimension_type i = 0; i < n; ++i) {
+        long sc = r.range(1, 3);
+        apply_refine_con(s, sc * Variable(i) >= r.range(-9, -1));
+        apply_refine_con(s, sc * Variable(i) <= r.range(1, 11));
+      }
+    }
     unsigned k = 1 + r.below(4);
     for (unsigned i = 0; i < k; ++i) refine(s);
+  }
+  void apply_refine_con(int s, const Constraint& c) {
+    Slot& S = slot[s]; dimension_type n = dim(s);
+    OS o; o << "pop " << s << " refine_con"; put_con(o, c, n); J.line(o.str());
+    S.p->refine_with_constraint(c); S.s1->refine_with_constraint(c); S.s2->refine_with_constraint(c);
   }
   void refine(int s) {
     Slot& S = slot[s]; dimension_type n = dim(s);
     OS o;
-    if (r.chance(3, 5)) { Constraint c = rnd_c(n);
-      o << "pop " << s << " refine_con"; put_con(o, c, n); J.line(o.str());
-      S.p->refine_with_constraint(c); S.s1->refine_with_constraint(c); S.s2->refine_with_constraint(c);
-    } else { Congruence cg = rnd_cg(n);
-      o << "pop " << s << " refine_cg " << cg.modulus() << " " << cg.inhomogeneous_term();
-      for (dimension_type v = 0; v < n; ++v) o << " " << cg.coefficient(Variable(v));
-      J.line(o.str());
-      S.p->refine_with_congruence(cg); S.s1->refine_with_congruence(cg); S.s2->refine_with_congruence(cg);
-    }
+    unsigned k = r.below(10);
+    if (k < 4) apply_refine_con(s, rnd_c(n, nnc));
+    else if (k < 5) { Constraint_System cs; cs.insert(rnd_c(n, nnc)); cs.insert(rnd_c(n, nnc));
+      o << "pop " << s << " refine_cons"; put_cs(o, cs, n); J.line(o.str());
+      S.p->refine_with_constraints(cs); S.s1->refine_with_constraints(cs); S.s2->refine_with_constraints(cs); }
+    else if (k < 8) { Congruence cg = rnd_cg(n);
+      o << "pop " << s << " refine_cg"; put_cg(o, cg, n); J.line(o.str());
+      S.p->refine_with_congruence(cg); S.s1->refine_with_congruence(cg); S.s2->refine_with_congruence(cg); }
+    else if (k < 9) { Constraint c = has_grid ? equality_c(n) : (r.chance(1, 3) ? equality_c(n) : interval_c(n));
+      o << "pop " << s << " add_con"; put_con(o, c, n); J.line(o.str());
+      if (r.chance(1, 2)) { S.p->add_constraint(c); } else { Constraint_System cs(c); S.p->add_constraints(cs); }
+      S.s1->add_constraint(c); S.s2->add_constraint(c); }
+    else { Constraint c = equality_c(n); Congruence cg(c);
+      o << "pop " << s << " add_cg"; put_cg(o, cg, n); J.line(o.str());
+      if (r.chance(1, 2)) { S.p->add_congruence(cg); } else { Congruence_System cgs(cg); S.p->add_congruences(cgs); }
+      S.s1->add_congruence(cg); S.s2->add_congruence(cg); }
   }
 
+  // ---- queries: every definite answer must be true of the intersection --------------------------------
+  Constraint derived_c(int s, dimension_type n) {
+    // a constraint related to the product itself: one of its own constraints as is / as an equality /
+    // made strict / reversed -- so that saturation and inclusion by one component only do occur
+    PR& P = *slot[s].p;
+    Constraint_System cs = r.chance(1, 2) ? Constraint_System(P.domain1().minimized_constraints()) : Constraint_System(P.domain2().minimized_constraints());
+    unsigned m = 0; for (Constraint_System::const_iterator i = cs.begin(); i != cs.end(); ++i) ++m;
+    if (m == 0) return rnd_c(n, true);
+    unsigned pick = r.below(m), j = 0;
+    for (Constraint_System::const_iterator i = cs.begin(); i != cs.end(); ++i, ++j) if (j == pick) {
+      Linear_Expression e(i->expression());
+      if (e.space_dimension() < n) e += 0 * Variable(n - 1);
+      switch (r.below(6)) {
+        case 0: return e >= 0; case 1: return e == 0; case 2: return e > 0;
+        case 3: return -e >= 0; case 4: return -e > 0; default: return e + r.range(-1, 1) >= 0;
+      }
+    }
+    return rnd_c(n, true);
+  }
   void query(int s) {
     Slot& S = slot[s]; dimension_type n = dim(s); PR& P = *S.p;
-    if (S.raw_known) { OS q; q << "praw " << s << " " << n; put_pair(q, *S.s1, *S.s2, n); J.line(q.str()); }
+    if (!S.raw_known) observe(s);
+    pm = r.chance(1, 2);
+    put_raw(s);
     OS o; o << "pq " << s << " ";
-    switch (r.below(12)) {
-      case 0: case 1: o << "is_empty " << P.is_empty(); break;
-      case 2: o << "is_universe " << P.is_universe(); break;
-      case 3: o << "is_bounded " << P.is_bounded(); break;
-      case 4: case 5: { int t = pick_compatible(s); if (t == s) return; observe(t);
-        o << "contains " << t << " " << P.contains(*slot[t].p); break; }
+    switch (r.below(20)) {
+      case 0: o << "is_empty " << P.is_empty(); break;
+      case 1: o << "is_universe " << P.is_universe(); break;
+      case 2: o << "is_bounded " << P.is_bounded(); break;
+      case 3: o << "is_discrete " << P.is_discrete(); break;
+      case 4: o << "is_closed " << P.is_topologically_closed(); break;
+      case 5: { dimension_type v = r.below(n); o << "constrains " << v << " " << P.constrains(Variable(v)); break; }
       case 6: { int t = pick_compatible(s); if (t == s) return; observe(t);
-        o << "strictly_contains " << t << " " << P.strictly_contains(*slot[t].p); break; }
+        o << "contains " << t << " " << P.contains(*slot[t].p); break; }
       case 7: { int t = pick_compatible(s); if (t == s) return; observe(t);
+        o << "strictly_contains " << t << " " << P.strictly_contains(*slot[t].p); break; }
+      case 8: { int t = pick_compatible(s); if (t == s) return; observe(t);
         o << "disjoint " << t << " " << P.is_disjoint_from(*slot[t].p); break; }
-      case 8: { Linear_Expression e = rnd_expr(r, n, 2, false); bool up = r.chance(1, 2);
+      case 9: { Linear_Expression e = rnd_expr(r, n, 2, false); bool up = r.chance(1, 2);
         o << (up ? "bounds_above" : "bounds_below"); put_expr(o, e, n);
         o << " " << (up ? P.bounds_from_above(e) : P.bounds_from_below(e)); break; }
-      case 9: { Linear_Expression e = rnd_expr(r, n, 2, false); bool mx = r.chance(1, 2);
-        Coefficient num, den; bool incl;
-        bool ok = mx ? P.maximize(e, num, den, incl) : P.minimize(e, num, den, incl);
+      case 10: case 11: { Linear_Expression e = r.chance(1, 2) ? rnd_expr(r, n, 2, false) : Linear_Expression(unit_or_pair(n));
+        bool mx = r.chance(1, 2);
+        Coefficient num, den; bool incl; Generator g = point();
+        bool ok;
+        if (r.chance(1, 2)) ok = mx ? P.maximize(e, num, den, incl) : P.minimize(e, num, den, incl);
+        else ok = mx ? P.maximize(e, num, den, incl, g) : P.minimize(e, num, den, incl, g);
         o << (mx ? "max" : "min"); put_expr(o, e, n);
         if (!ok) o << " none"; else o << " " << num << " " << den << " " << incl; break; }
-      default: { Constraint c = rnd_c(n); if (c.is_strict_inequality()) return;
+      case 12: case 13: case 14: case 15: {
+        Constraint c = r.chance(1, 2) ? derived_c(s, n) : rnd_c(n, true);
         Poly_Con_Relation rel = P.relation_with(c);
         o << "relcon"; put_con(o, c, n);
         o << " " << rel.implies(Poly_Con_Relation::is_disjoint()) << " " << rel.implies(Poly_Con_Relation::strictly_intersects())
           << " " << rel.implies(Poly_Con_Relation::is_included()) << " " << rel.implies(Poly_Con_Relation::saturates());
         break; }
+      case 16: case 17: { Congruence cg = rnd_cg(n);
+        Poly_Con_Relation rel = P.relation_with(cg);
+        o << "relcg"; put_cg(o, cg, n);
+        o << " " << rel.implies(Poly_Con_Relation::is_disjoint()) << " " << rel.implies(Poly_Con_Relation::strictly_intersects())
+          << " " << rel.implies(Poly_Con_Relation::is_included()) << " " << rel.implies(Poly_Con_Relation::saturates());
+        break; }
+      default: { Linear_Expression e; e += 0 * Variable(n - 1);
+        for (dimension_type i = 0; i < n; ++i) e += r.range(-4, 4) * Variable(i);
+        unsigned k = r.below(6);
+        Generator g = (k < 4 || all_zero(e, n)) ? point(e, r.range(1, 3)) : k == 4 ? ray(e) : line(e);
+        Poly_Gen_Relation rel = P.relation_with(g);
+        o << "relgen"; put_gen(o, g, n); o << " " << rel.implies(Poly_Gen_Relation::subsumes());
+        break; }
     }
-    // the predicate reduced the product: the raw state is the last observed one only if it was observed
     J.line(o.str());
     S.raw_known = false;
     observe(s);      // the predicate may have reduced: print the components (judged against the praw above) and resynchronise
   }
 
-  // one step: a component-wise operator applied to the product and to the shadows
+  // the argument of a binary operator: its components are printed (and, for `diff', observed) first
+  int operand(int s, bool need_exact) {
+    int t = pick_compatible(s); if (t == s) return -1;
+    if (need_exact || !slot[t].raw_known) observe(t); else { pm = r.chance(1, 2); put_raw(t); }
+    return t;
+  }
+
+#define BOTH(call) do { P.call; S.s1->call; S.s2->call; } while (0)
+  // one step: a transformer applied to the product and, component-wise, to the shadows
   void mutate() {
     int s = pick_live();
     if (!slot[s].raw_known) observe(s);
     Slot& S = slot[s]; PR& P = *S.p; dimension_type n = dim(s);
     OS o;
-    unsigned k = r.below(24);
+    bool reduces_first = false;
+    unsigned k = r.below(44);
     try {
       switch (k) {
-      case 0: case 1: case 2: case 3: case 4: refine(s); break;
-      case 5: case 6: { int t = pick_compatible(s); if (t == s) return;
-        if (!slot[t].raw_known) observe(t);
+      case 0: case 1: case 2: case 3: case 4: case 5: refine(s); break;
+      case 6: case 7: { int t = operand(s, false); if (t < 0) return;
         o << "pop " << s << " meet " << t; J.line(o.str());
         P.intersection_assign(*slot[t].p); S.s1->intersection_assign(*slot[t].s1); S.s2->intersection_assign(*slot[t].s2); break; }
-      case 7: case 8: { dimension_type v = r.below(n);
-        Linear_Expression e = rnd_expr(r, n, 2, false); Coefficient d = r.chance(1, 4) ? r.range(-2, -1) : r.range(1, 2);
-        o << "pop " << s << " aff_img " << v << " " << d; put_expr(o, e, n); J.line(o.str());
-        P.affine_image(Variable(v), e, d); S.s1->affine_image(Variable(v), e, d); S.s2->affine_image(Variable(v), e, d); break; }
-      case 9: { dimension_type v = r.below(n);
-        Linear_Expression e = rnd_expr(r, n, 2, false); Coefficient d = r.chance(1, 4) ? r.range(-2, -1) : r.range(1, 2);
-        o << "pop " << s << " aff_pre " << v << " " << d; put_expr(o, e, n); J.line(o.str());
-        P.affine_preimage(Variable(v), e, d); S.s1->affine_preimage(Variable(v), e, d); S.s2->affine_preimage(Variable(v), e, d); break; }
-      case 10: { if (n >= maxdim) return; bool emb = r.chance(1, 2);
-        o << "pop " << s << (emb ? " add_dims_embed 1" : " add_dims_project 1"); J.line(o.str());
-        if (emb) { P.add_space_dimensions_and_embed(1); S.s1->add_space_dimensions_and_embed(1); S.s2->add_space_dimensions_and_embed(1); }
-        else { P.add_space_dimensions_and_project(1); S.s1->add_space_dimensions_and_project(1); S.s2->add_space_dimensions_and_project(1); }
+      case 8: case 9: case 10: { dimension_type v = r.below(n);
+        Linear_Expression e = rnd_expr(r, n, 2, false); Coefficient d = r.chance(1, 4) ? r.range(-2, -1) : r.range(1, 3);
+        bool img = k != 10;
+        o << "pop " << s << (img ? " aff_img " : " aff_pre ") << v << " " << d; put_expr(o, e, n); J.line(o.str());
+        if (img) BOTH(affine_image(Variable(v), e, d)); else BOTH(affine_preimage(Variable(v), e, d)); break; }
+      case 11: case 12: case 13: case 14: { dimension_type v = r.below(n);
+        Relation_Symbol rs = rnd_rel(strict_ok);
+        Linear_Expression e = rnd_expr(r, n, 2, false); Coefficient d = r.chance(1, 4) ? r.range(-2, -1) : r.range(1, 3);
+        bool img = k < 13;
+        o << "pop " << s << (img ? " gen_img " : " gen_pre ") << v << " " << relsym_str(rs) << " " << d; put_expr(o, e, n); J.line(o.str());
+        if (img) BOTH(generalized_affine_image(Variable(v), rs, e, d)); else BOTH(generalized_affine_preimage(Variable(v), rs, e, d));
         break; }
-      case 11: { if (n < 2) return; Variables_Set vs; vs.insert(Variable(r.below(n)));
-        o << "pop " << s << " remove_dims 1 " << *vs.begin(); J.line(o.str());
-        P.remove_space_dimensions(vs); S.s1->remove_space_dimensions(vs); S.s2->remove_space_dimensions(vs); break; }
-      // ---- operators that reduce first: judged by the sandwich  image(meet) <= result <= component-wise
-      case 12: case 13: { dimension_type v = r.below(n);
-        if (!S.raw_known) observe(s);
-        { OS q; q << "praw " << s << " " << n; put_pair(q, *S.s1, *S.s2, n); J.line(q.str()); }
-        o << "pimp " << s << " unconstrain " << v; J.line(o.str());
-        P.unconstrain(Variable(v)); S.s1->unconstrain(Variable(v)); S.s2->unconstrain(Variable(v));
-        observe_implicit(s); return; }
-      case 14: case 15: { int t = pick_compatible(s); if (t == s) return;
-        if (!S.raw_known) observe(s); if (!slot[t].raw_known) observe(t);
-        { OS q; q << "praw " << s << " " << n; put_pair(q, *S.s1, *S.s2, n); J.line(q.str()); }
-        { OS q; q << "praw " << t << " " << n; put_pair(q, *slot[t].s1, *slot[t].s2, n); J.line(q.str()); }
-        o << "pimp " << s << " ub " << t; J.line(o.str());
+      case 15: case 16: case 17: case 18: {
+        Relation_Symbol rs = rnd_rel(strict_ok);
+        Linear_Expression lhs = unit_or_pair(n); lhs += r.range(-2, 2);
+        Linear_Expression rhs = rnd_expr(r, n, 2, false);
+        bool img = k < 17;
+        o << "pop " << s << (img ? " gen_img2 " : " gen_pre2 ") << relsym_str(rs); put_expr(o, lhs, n); put_expr(o, rhs, n); J.line(o.str());
+        if (img) BOTH(generalized_affine_image(lhs, rs, rhs)); else BOTH(generalized_affine_preimage(lhs, rs, rhs));
+        break; }
+      case 19: case 20: case 21: case 22: { dimension_type v = r.below(n);
+        Linear_Expression lb = rnd_expr(r, n, 2, false), ub = rnd_expr(r, n, 2, false);
+        if (r.chance(1, 2)) ub = lb + r.range(0, 4);
+        Coefficient d = r.chance(1, 4) ? r.range(-2, -1) : r.range(1, 3);
+        bool img = k < 21;
+        // Box::bounded_affine_preimage divides by zero (SIGFPE, known finding): exercised rarely on pairs with a box
+        if (!img && has_box && !r.chance(1, 6)) img = true;
+        o << "pop " << s << (img ? " bnd_img " : " bnd_pre ") << v << " " << d; put_expr(o, lb, n); put_expr(o, ub, n); J.line(o.str());
+        if (img) BOTH(bounded_affine_image(Variable(v), lb, ub, d)); else BOTH(bounded_affine_preimage(Variable(v), lb, ub, d));
+        break; }
+      case 23: case 24: { Variables_Set vs; vs.insert(Variable(r.below(n))); if (r.chance(1, 3)) vs.insert(Variable(r.below(n)));
+        o << "pop " << s << " unconstrain";
+        for (Variables_Set::const_iterator i = vs.begin(); i != vs.end(); ++i) o << " " << *i;
+        J.line(o.str());
+        if (vs.size() == 1 && r.chance(1, 2)) BOTH(unconstrain(Variable(*vs.begin()))); else BOTH(unconstrain(vs));
+        reduces_first = true; break; }
+      case 25: case 26: { int t = operand(s, false); if (t < 0) return;
+        if (r.chance(1, 4)) {   // journalled as an upper bound only when it reports success
+          bool done = P.upper_bound_assign_if_exact(*slot[t].p);
+          if (done) { o << "pop " << s << " ub " << t; J.line(o.str()); }
+          S.raw_known = false; slot[t].raw_known = false; observe(s); observe(t); return; }
+        o << "pop " << s << " ub " << t; J.line(o.str());
         P.upper_bound_assign(*slot[t].p); S.s1->upper_bound_assign(*slot[t].s1); S.s2->upper_bound_assign(*slot[t].s2);
-        slot[t].raw_known = false;
-        observe_implicit(s); observe(t); return; }
-      case 16: case 17: { int t = pick_compatible(s); if (t == s) return;
-        if (!S.raw_known) observe(s); if (!slot[t].raw_known) observe(t);
-        { OS q; q << "praw " << s << " " << n; put_pair(q, *S.s1, *S.s2, n); J.line(q.str()); }
-        { OS q; q << "praw " << t << " " << n; put_pair(q, *slot[t].s1, *slot[t].s2, n); J.line(q.str()); }
-        o << "pimp " << s << " diff " << t; J.line(o.str());
+        slot[t].raw_known = false; reduces_first = true; break; }
+      case 27: case 28: { int t = operand(s, true); if (t < 0) return;
+        o << "pop " << s << " diff " << t; J.line(o.str());
         P.difference_assign(*slot[t].p); S.s1->difference_assign(*slot[t].s1); S.s2->difference_assign(*slot[t].s2);
-        slot[t].raw_known = false;
-        observe_implicit(s); observe(t); return; }
-      case 18: { int t = pick_compatible(s); if (t == s) return;
-        if (!S.raw_known) observe(s); if (!slot[t].raw_known) observe(t);
-        { OS q; q << "praw " << s << " " << n; put_pair(q, *S.s1, *S.s2, n); J.line(q.str()); }
-        { OS q; q << "praw " << t << " " << n; put_pair(q, *slot[t].s1, *slot[t].s2, n); J.line(q.str()); }
-        o << "pimp " << s << " time_elapse " << t; J.line(o.str());
+        slot[t].raw_known = false; reduces_first = true; break; }
+      case 29: case 30: { int t = operand(s, false); if (t < 0) return;
+        o << "pop " << s << " time_elapse " << t; J.line(o.str());
         P.time_elapse_assign(*slot[t].p); S.s1->time_elapse_assign(*slot[t].s1); S.s2->time_elapse_assign(*slot[t].s2);
-        slot[t].raw_known = false;
-        observe_implicit(s); observe(t); return; }
-      case 19: { // copy / assignment
+        slot[t].raw_known = false; reduces_first = true; break; }
+      case 31: { int t = operand(s, false); if (t < 0) return;   // x := widen(x ub t, x)
+        PR old(P);
+        o << "pop " << s << " ub " << t; J.line(o.str());
+        P.upper_bound_assign(*slot[t].p);
+        { OS w; w << "pop " << s << " widen " << s; J.line(w.str()); }
+        P.widening_assign(old);
+        S.raw_known = false; slot[t].raw_known = false; observe(s); observe(t); return; }
+      case 32: { o << "pop " << s << " closure"; J.line(o.str()); BOTH(topological_closure_assign()); break; }
+      case 33: { if (n >= maxdim) return; bool emb = r.chance(1, 2);
+        o << "pop " << s << (emb ? " add_dims_embed 1" : " add_dims_project 1"); J.line(o.str());
+        if (emb) BOTH(add_space_dimensions_and_embed(1)); else BOTH(add_space_dimensions_and_project(1));
+        break; }
+      case 34: { if (n < 2) return; Variables_Set vs; vs.insert(Variable(r.below(n)));
+        o << "pop " << s << " remove_dims 1 " << *vs.begin(); J.line(o.str());
+        BOTH(remove_space_dimensions(vs)); break; }
+      case 35: { if (n < 2) return; dimension_type m = 1 + r.below(n - 1);
+        o << "pop " << s << " remove_higher " << m; J.line(o.str());
+        BOTH(remove_higher_space_dimensions(m)); break; }
+      case 36: { if (n < 2) return;
+        Partial_Function pf; std::vector<dimension_type> perm; for (dimension_type i = 0; i < n; ++i) perm.push_back(i);
+        for (dimension_type i = n; i > 1; --i) std::swap(perm[i - 1], perm[r.below(i)]);
+        o << "pop " << s << " map_dims " << n << " " << n;
+        for (dimension_type i = 0; i < n; ++i) { pf.insert(i, perm[i]); o << " " << i << " " << perm[i]; }
+        J.line(o.str()); BOTH(map_space_dimensions(pf)); break; }
+      case 37: { if (n >= maxdim) return; dimension_type v = r.below(n);
+        o << "pop " << s << " expand " << v << " 1"; J.line(o.str());
+        BOTH(expand_space_dimension(Variable(v), 1)); break; }
+      case 38: { if (n < 2) return; dimension_type v = r.below(n), w = r.below(n); if (v == w) return;
+        Variables_Set vs; vs.insert(Variable(v));
+        o << "pop " << s << " fold 1 " << v << " " << w; J.line(o.str());
+        BOTH(fold_space_dimensions(vs, Variable(w))); break; }
+      case 39: { int t = pick_live(); if (t == s || n + dim(t) > maxdim) return;
+        if (!slot[t].raw_known) observe(t); else { pm = r.chance(1, 2); put_raw(t); }
+        o << "pop " << s << " concat " << t; J.line(o.str());
+        P.concatenate_assign(*slot[t].p); S.s1->concatenate_assign(*slot[t].s1); S.s2->concatenate_assign(*slot[t].s2); break; }
+      case 40: { // copy / assignment
         int d = r.below(3); if (d == s) return;
-        if (!S.raw_known) observe(s);
         o << "pcopy " << d << " " << s; J.line(o.str());
         if (live(d) && r.chance(1, 2)) *slot[d].p = P; else slot[d].p.reset(new PR(P));
         slot[d].s1.reset(new D1(*S.s1)); slot[d].s2.reset(new D2(*S.s2)); slot[d].raw_known = true; break; }
-      case 20: { int d = r.below(3); if (live(d) && r.chance(2, 3)) return; create(d, n); break; }
-      case 21: { if (!nnc) return; o << "pop " << s << " closure"; J.line(o.str());
-        P.topological_closure_assign(); S.s1->topological_closure_assign(); S.s2->topological_closure_assign(); break; }
-      default: query(s); break;
+      case 41: { int d = r.below(3); if (live(d) && r.chance(2, 3)) return; create(d, n); break; }
+      default: query(s); return;
       }
     } catch (...) {
       J.line("exc " + pplv::exc_class());
-      slot[s].raw_known = false;
+      // the product may have been modified half-way: start the slot afresh
+      create(s, n);
+      return;
     }
-  }
-  // after an operator that reduced internally: the raw state before it was printed (praw of the
-  // operands), the shadows now hold the component-wise result on the *unreduced* operands
-  void observe_implicit(int s) {
-    Slot& S = slot[s]; dimension_type n = S.p->space_dimension();
-    { OS o; o << "pcw " << s << " " << n; put_pair(o, *S.s1, *S.s2, n); J.line(o.str()); }
-    const D1& o1 = S.p->domain1(); const D2& o2 = S.p->domain2();
-    { OS o; o << "pobs " << s << " " << n; put_pair(o, o1, o2, n); J.line(o.str()); }
-    *S.s1 = o1; *S.s2 = o2; S.raw_known = true;
+    if (reduces_first) { S.raw_known = false; observe(s); }
+    else if (k > 5 && k < 40 && r.chance(2, 3)) observe(s);     // short chains: a failure is attributed to few operators
   }
 
   void run(long h, long seed, long len, int pair, const char* pol) {
     dimension_type n = 1 + r.below((unsigned)std::min<long>(maxdim, 3));
-    nnc = (std::string(dname<D1>()) == "N" || std::string(dname<D2>()) == "N");
+    if (has_grid && n == 3 && r.chance(1, 2)) n = 2;
     { OS o; o << "hist " << h << " " << seed << " X " << pair << " " << pol << " " << dname<D1>() << " " << dname<D2>(); J.line(o.str()); }
     create(0, n); observe(0);
     create(1, n); if (r.chance(1, 2)) observe(1);
@@ -305,9 +464,12 @@ int main(int argc, char** argv) {
 #elif PAIRSET == 1
       if (which == 0) run_pair<Rational_Box, Grid>(2, sd, h, seed, len, maxdim, pol);
       else run_pair<BD_Shape<mpq_class>, C_Polyhedron>(3, sd, h, seed, len, maxdim, pol);
-#else
+#elif PAIRSET == 2
       if (which == 0) run_pair<Octagonal_Shape<mpq_class>, Rational_Box>(4, sd, h, seed, len, maxdim, pol);
       else run_pair<Grid, BD_Shape<mpq_class> >(5, sd, h, seed, len, maxdim, pol);
+#else
+      if (which == 0) run_pair<Grid, Octagonal_Shape<mpq_class> >(6, sd, h, seed, len, maxdim, pol);
+      else run_pair<Grid, Rational_Box>(7, sd, h, seed, len, maxdim, pol);
 #endif
     }
   }, 60);
